@@ -10,7 +10,8 @@ END
 ```
 The driver runs `SPOnK.prog` on the kernel model at `Float` time with `run()` (`runAll`) and prints how the run ended, the
 `put` / `serve` / `out` observations in the order of the trace (`<what> <id> <env.now bits>`), the attribute cells, the number
-of wake-up tokens left and the final clock.  The harness runs the real `SP` with a real source process on the real kernel
+of wake-up tokens left, the final clock and the verdict of the property's oracle (`SPOnK.orun` at `Float`) on this
+history.  The harness runs the real `SP` with a real source process on the real kernel
 and compares line for line.
 -/
 
@@ -29,6 +30,12 @@ def showCur (s : KState Float (SpSt Float)) : String :=
   match cellVal s cCur with
   | .int id => toString id
   | _ => "None"
+
+/-- does the oracle of the property (`SPOnK.orun`, here at `Float`) accept the history and end drained? -/
+def oracleLine (F : Nat) (flow size : Int → Nat) (cfg : SP.Cfg Float) (s : KState Float (SpSt Float)) : String :=
+  match orun F flow size cfg oInit (histOf s.trace) with
+  | some o => if drained F o then "oracle ok" else "oracle pending"
+  | none => "oracle REJECT"
 
 def showRun (F : Nat) (r : RunResult Float (SpSt Float)) : List String :=
   let (tag, s) := match r with
@@ -71,6 +78,9 @@ partial def spkLoop (h : IO.FS.Stream) : IO Unit := do
     let cfg : SP.Cfg Float := { rate := SPOnK.skb rate, prios := w.prios }
     let r := runAll (SPOnK.prog F flow size cfg) 1 (10 * w.arr.length + 10) (SPOnK.initState F arrivals)
     for l in SPOnK.showRun F r do IO.println l
+    match r with
+    | .returned _ s => IO.println (SPOnK.oracleLine F flow size cfg s)
+    | _ => IO.println "oracle -"
     IO.println "ENDCASE"
     spkLoop h
   | [] => spkLoop h
